@@ -377,7 +377,10 @@ AcqCreateResp(i, s) ==
   /\ UNCHANGED <<now, rec, seq, orph>>
 
 \* observeLeader: only a non-leader records what it reads
-Observe(e, id, rev) == IF e.leader /\ ~Dv("follower_bookkeeping_overwrites_leader") THEN e ELSE [e EXCEPT !.lid = id, !.rev = rev]
+\* ... and ignores an observation older than the one it has (late notifications next to fresher reads)
+Observe(e, id, rev) == IF e.leader /\ ~Dv("follower_bookkeeping_overwrites_leader") THEN e
+                       ELSE IF rev < e.rev /\ ~Dv("stale_observation_regresses") THEN e
+                       ELSE [e EXCEPT !.lid = id, !.rev = rev]
 
 TkGetResp(i, s) ==
   LET t == T(i, s) o == t.op IN
